@@ -50,6 +50,49 @@ def case_key(line, fields):
     return ":".join(f"{f}={j.get(f)}" for f in fields if f in j)
 
 
+def replay_case(prop, tier, res, plan, assumptions, replay, cov, work):
+    """Re-decide one recorded violation against the current tree: a self-contained case is handed to the driver again
+    (stateless families: the implementation's answer is re-obtained by re-running the harness command recorded in
+    `rerun` and looking the case up by its key; if that is not possible the recorded answer is re-judged)."""
+    rj = json.load(open(replay))
+    fam = rj.get("family")
+    pl = next((p for p in plan if p["family"] == fam), plan[0])
+    how = rj.get("rerun")
+    if isinstance(how, list):
+        how = {"harness": how}
+    clause = (rj.get("verdict", "").split(" ") + ["", "", ""])[2]
+    reproduced, note = False, ""
+    if how and how.get("harness"):
+        h = how["harness"]
+        r = run_cases(h[0], h[1:], how.get("driver_mode", pl["mode"]), work, "replay")
+        if "error" in r:
+            note = "re-run failed: " + r["error"][:300]
+        else:
+            want = case_key(json.dumps(rj.get("case", {})), pl["key_fields"])
+            for c, v in r["bad"]:
+                if v.startswith("PROP ") and prop in v.split(" ")[1].split(",") and (case_key(c, pl["key_fields"]) == want or (clause and v.split(" ")[2:3] == [clause])):
+                    reproduced, note = True, v[:300]
+                    break
+            cov.update({"evaluations": r["n"], "distinct_nontrivial": len(r["kinds"])})
+    elif "case" in rj:
+        tf = os.path.join(work, "replay-case.jsonl")
+        open(tf, "w").write(json.dumps(rj["case"]) + "\n")
+        with open(tf) as f:
+            d = subprocess.run([DRIVER, pl["mode"]], stdin=f, stdout=subprocess.PIPE, stderr=subprocess.STDOUT, text=True, timeout=600)
+        v = d.stdout.split("\n")[0]
+        reproduced, note = v.startswith("PROP "), v[:300] + " (recorded answer re-judged; the harness command was not recorded)"
+        cov.update({"evaluations": 1, "distinct_nontrivial": 1})
+    if reproduced:
+        res.violation(rj.get("fingerprint", "replay"), f"replayed violation still holds on the current tree: {note}",
+                      {"kind": "replay", "of": replay, "verdict": note}, found=True)
+    else:
+        res.notes.append("replayed case no longer violates the property on the current tree" + (": " + note if note else ""))
+    cov.setdefault("evaluations", 0)
+    cov.setdefault("distinct_nontrivial", 0)
+    cov["replay_of"] = replay
+    return res.finish("proof", cov, assumptions)
+
+
 def check_cases(prop, tier, res, plan, assumptions, replay=None):
     """plan: list of dict(sub, mode, args(tier, seed, shard)->list, shards(tier)->int, key_fields, family, distinct_rule)"""
     cov, lean_ok = proof_coverage(prop, res, {})
@@ -60,6 +103,8 @@ def check_cases(prop, tier, res, plan, assumptions, replay=None):
     try:
         total, kinds, samples = 0, {}, []
         jobs = []
+        if replay:
+            return replay_case(prop, tier, res, plan, assumptions, replay, cov, work)
         for pl in plan:
             for sh in range(pl["shards"](tier)):
                 jobs.append((pl, sh))
